@@ -173,3 +173,26 @@ Theorem C04_whole_pipeline_order_independent :
         /\ WholeDet.flat_trace (Pipeline.exec_trace E1 a w gens s) = WholeDet.flat_trace (Pipeline.exec_trace E2 a w gens s)).
 Proof. exact Gengo.Props.Whole.Whole_pipeline_order_independent. Qed.
 Print Assumptions C04_whole_pipeline_order_independent.
+
+(* C02 / C07 read on this file's run: a failing run (None) is a pipeline run that did not return Done; a successful run
+   leaves every path that is not gengo's own output as it was *)
+Theorem C04_whole_run_fails_iff_pipeline_fails :
+  forall fmt G (o : oracle) rank a w,
+    Gengo.Proofs.WholeDet.world_wf w -> shuffles o -> WholeDet.natural o ->
+    forall gens, NoDup (map Pipeline.g_name gens) -> forall s,
+    run true true (WholeDet.det_render fmt) WholeDet.det_parse_sum (WholeDet.only_gfs o) (WholeDet.det_args G a)
+        (Pipeline.w_direct w) (WholeDet.det_world w) (map (WholeDet.det_gen w) gens) (WholeDet.det_fs s) = None
+    <-> Pipeline.exec_outcome (Whole.whole_env fmt (WholeDet.order_of o) rank G) a w gens s <> Pipeline.Done.
+Proof. exact Gengo.Props.Whole.Whole_determinism_fails_iff_pipeline_fails. Qed.
+Print Assumptions C04_whole_run_fails_iff_pipeline_fails.
+
+Theorem C04_whole_run_frame :
+  forall fmt G (o : oracle) rank a w,
+    Gengo.Proofs.WholeDet.world_wf w -> shuffles o -> WholeDet.natural o ->
+    forall gens, NoDup (map Pipeline.g_name gens) -> forall s f' log q,
+    run true true (WholeDet.det_render fmt) WholeDet.det_parse_sum (WholeDet.only_gfs o) (WholeDet.det_args G a)
+        (Pipeline.w_direct w) (WholeDet.det_world w) (map (WholeDet.det_gen w) gens) (WholeDet.det_fs s) = Some (f', log) ->
+    ~ Gengo.Proofs.Pipeline.own_output (Whole.whole_env fmt (WholeDet.order_of o) rank G) a w s q ->
+    f' q = WholeDet.det_fs s q.
+Proof. exact Gengo.Props.Whole.Whole_determinism_frame. Qed.
+Print Assumptions C04_whole_run_frame.
